@@ -4,6 +4,8 @@ BayesianOptimization / BOLFI.fit driven under the simulated scheduler.  The clau
 "acquisition gradients equal the derivatives of the acquisition functions" is a pure analytic
 identity and is NOT decided here (see MANIFEST level_note / DESIGN.md).
 """
+import copy as pycopy
+
 import numpy as np
 
 from simkit import backend as bk
@@ -95,7 +97,11 @@ def gen_bo(tape, spec):
             # a fixed probe point is watched along the run: gradient first, then the values
             # around it, then the value at the point itself (the last thing the acquisition
             # object saw before the surrogate changes again)
-            'grad_probe': tape.chance('gradient_probe', 1, 3)}
+            'grad_probe': tape.chance('gradient_probe', 1, 3),
+            # fault: the simulator fails once, in one batch; the exception leaves infer / iterate,
+            # the user calls again and the run carries on without that batch
+            'fail_bi': tape.int('failing_batch', 0, 7) if tape.chance('simulator_failure', 1, 5)
+            else None}
 
 
 def tm_xy(tm):
@@ -132,8 +138,13 @@ class BoRun:
         self.client = bk.make_client(elfi, fac, self.backend)
         elfi.set_client(self.client)
         self.monitor = bk.ClientMonitor(self.client, self.backend, out, fac)
+        if cfg.get('fail_bi') is not None:
+            spec = pycopy.deepcopy(spec)
+            simn = [n for n in spec['nodes'] if n['name'] == 'sim'][0]
+            simn['cfg'] = dict(simn['cfg'], use_meta=True, fail_bi=cfg['fail_bi'])
         model, _ = sp.build_model(elfi, spec)
         self.model = model
+        self.lost = []
         names = sorted(spec['params'])
         if cfg.get('tm_order') == 'reversed':
             # a user-supplied surrogate may list the parameters in any order; its order fixes
@@ -251,6 +262,15 @@ class BoRun:
             self.out.inconclusive = True
             return 'cap'
         except Exception as e:
+            if isinstance(e, sp.InjectedFailure) or 'injected simulator failure' in str(e):
+                # the batch that failed is gone (it was taken off the pending list before its
+                # result was fetched); the user simply calls again
+                if not self.lost:
+                    self.lost.append(self.cfg['fail_bi'])
+                    self.out.stats['simulator_failure_then_retry'] += 1
+                    self.out.ev('S simulator failed in batch %d; calling again' %
+                                self.cfg['fail_bi'])
+                    return self.drive(n_evidence, via_infer)
             self.error = e
             return 'error'
         self.monitor.check_clean('drive(%d)' % n_evidence)
@@ -424,10 +444,15 @@ def run(tape, kind):
         return out
     X, Y = res
     idx = [bi for bi, _ in run_.consumed]
-    if idx != list(range(len(idx))):
-        out.violate('in-order-exactly-once', '', got=idx[:30])
+    exp_idx = [i for i in range(len(idx) + len(run_.lost)) if i not in run_.lost][:len(idx)]
+    if idx != exp_idx:
+        out.violate('in-order-exactly-once', '', got=idx[:30], lost=run_.lost)
     # sync-schedule-independent
-    if not cfg['async']:
+    if run_.lost:
+        # after a failure the schedules legitimately diverge (which batches were already in
+        # flight when it surfaced); the evidence clauses above have been judged
+        out.probes['run_survived_simulator_failure'] += 1
+    elif not cfg['async']:
         ro = Outcome()
         ref_sched = dict(sr.REFERENCE_SCHED, mpb=sched['mpb'])
         ref, rstates = execute(ro, ref_sched)
